@@ -1,1 +1,74 @@
 // harness bodies for h2 src/proto/streams/streams.rs (compiled in-crate as `verif_h`, feature "verif")
+use super::*;
+use crate::proto::streams::counts::verif_h as counts_h;
+use crate::proto::streams::flow_control::verif_h as fc_h;
+use crate::proto::streams::recv::verif_h as recv_h;
+use crate::proto::streams::state::verif_h as st_h;
+use crate::proto::streams::store::Resolve;
+use crate::proto::streams::verif_h::{cfg, SymBuf};
+
+static ZEROS: [u8; 16] = [0; 16];
+
+/// The real `Inner::recv_data` (lookup by id, `counts.transition`, the DATA-frame budget,
+/// the automatic release on stream errors, `reset_on_recv_stream_err`) for a small padded
+/// non-final DATA frame on an open stream.  C18.data: the budget is charged by the
+/// *payload* length (what stays buffered for the application), never by padding;
+/// C03: connection credit for padding is back immediately.
+pub fn c18_data_inner_recv_data_budget() {
+    let c = cfg();
+    let role = peer::Dyn::Server;
+    let mut inner = Inner {
+        counts: Counts::new(role, &c),
+        actions: Actions { recv: Recv::new(role, &c), send: Send::new(&c), task: None, conn_error: None },
+        store: Store::new(),
+        refs: 1,
+    };
+    let send_buffer: SendBuffer<SymBuf> = SendBuffer { inner: Mutex::new(crate::proto::streams::buffer::verif_h::with_capacity(4)) };
+    let id = StreamId::from(1);
+    let mut stream = Stream::new(id, 0, 65_535);
+    st_h::set_inner_open_streaming(&mut stream.state);
+    stream.ref_count = 1;
+    stream.is_counted = true;
+    counts_h::set_counts(&mut inner.counts, 0, 10, 1, usize::MAX);
+    let key = inner.store.insert(id, stream).key();
+    let avail: usize = kani::any();
+    let max: usize = kani::any();
+    let empties: usize = kani::any();
+    kani::assume(avail <= max && empties <= 100);
+    counts_h::set_budget(&mut inner.counts, avail, max, empties);
+    let len: usize = kani::any();
+    kani::assume(len <= 16);
+    let pad: u8 = kani::any();
+    let frame = crate::frame::verif_h::mk_data(id, Bytes::from_static(&ZEROS).slice(..len), false, Some(pad));
+    let sz = frame.flow_controlled_len();
+    let (cw0, _) = recv_h::conn_flow(&inner.actions.recv);
+    let r = inner.recv_data(role, &send_buffer, frame);
+    let (a2, e2) = counts_h::get_budget(&inner.counts);
+    match &r {
+        Ok(()) => {
+            if len == 0 {
+                assert!(a2 == avail && e2 == empties + 1 && empties < 100, "empty DATA frames are counted, not charged to the byte budget");
+            } else {
+                assert!(avail >= 256 - len && a2 == avail - (256 - len),
+                    "C18.data: a small DATA frame must cost 256 - payload length of the budget, whatever its padding");
+                assert!(e2 == empties);
+            }
+            let (cw1, _) = recv_h::conn_flow(&inner.actions.recv);
+            assert!(cw1 as i64 == cw0 as i64 - sz as i64);
+        }
+        Err(Error::GoAway(_, reason, _)) => {
+            assert!(*reason == Reason::ENHANCE_YOUR_CALM || *reason == Reason::FLOW_CONTROL_ERROR);
+            if *reason == Reason::ENHANCE_YOUR_CALM {
+                assert!((len == 0 && empties >= 100) || (len > 0 && avail < 256 - len), "C18.data: tiny-DATA flood limit hit although the budget covers the frame");
+            }
+        }
+        Err(_) => panic!("unexpected error class for DATA on an open stream"),
+    }
+    kani::cover!(r.is_ok() && len > 0 && pad > 200, "small_payload_big_padding");
+    kani::cover!(matches!(&r, Err(Error::GoAway(_, Reason::ENHANCE_YOUR_CALM, _))), "flood_limit");
+    kani::cover!(true, "end");
+    let _ = key;
+    std::mem::forget(r);
+    std::mem::forget(send_buffer);
+    std::mem::forget(inner);
+}
